@@ -757,6 +757,9 @@ class Engine:
                 a = SInt(z3.IntVal(a.py))
             if isinstance(a, SInt) and isinstance(b, SInt):
                 return {ast.Lt: a.t < b.t, ast.LtE: a.t <= b.t, ast.Gt: a.t > b.t, ast.GtE: a.t >= b.t}[type(op)]
+            if isinstance(a, (SStr, SConst)) and isinstance(b, (SStr, SConst)):
+                x, y = self.to_str(path, a), self.to_str(path, b)
+                return {ast.Lt: x < y, ast.LtE: x <= y, ast.Gt: y < x, ast.GtE: y <= x}[type(op)]
             raise EngineError(f"ordering comparison on {type(a).__name__}")
         if isinstance(op, ast.In):
             return self.contains(path, b, a, e)
